@@ -2,6 +2,7 @@ import Driver.SimStep
 import Marwood.Heap.Check
 import Marwood.Vm.Verify
 import Marwood.Vm.ProcInv
+import Marwood.Vm.NoPanicCheck
 /-!
 Driver command `simgood`: the executable counterparts of the side conditions `Good` that the heap
 simulation theorems (Lemmas/SimMain.lean, T03.5 / T13.3) assume of every state along a run, evaluated on a
@@ -171,6 +172,18 @@ never point to an entry lambda (`statePB`; `statePB_sound : statePB s = true →
 
 def procCheck (s : St CHeap) : Option String := statePWhy s
 
+/-! ## T06.6: what `run_one` needs in order not to panic (`Vm/NoPanicCheck.lean`; `Lemmas/NoPanic*.lean`: `NPInv`)
+
+Every lambda object whose code contains VARARG has a formal, `Argument(a)` sources stay within the formals
+(`np-lambda`); every continuation object's stack copy fits the current stack capacity (`np-cont-fits`: the
+`split_at_mut` of `restore_continuation`); the slot-index `expect`s of CLOSURE's / ENTER's environment construction at
+the current instruction (`np-env-slots`). The lambda clause is not evaluated on hand-assembled bytecode. -/
+
+def noPanicCheck (syn : Bool) (s : St CHeap) : Option String :=
+  if !syn && !heapNPB s.heap then some "np-lambda" else
+  if !contFitsB s then some "np-cont-fits" else
+  if !envSlotsB s then some "np-env-slots" else none
+
 def isSynthetic (info : String) : Bool := (info.splitOn "+syn").length > 1
 
 def handle (args : List String) : Option String :=
@@ -191,8 +204,11 @@ def handle (args : List String) : Option String :=
           | some e => "bad " ++ e
           | none =>
             match procCheck s with
-            | none => "ok"
-            | some e => "bad " ++ e)
+            | some e => "bad " ++ e
+            | none =>
+              match noPanicCheck (isSynthetic info) s with
+              | none => "ok"
+              | some e => "bad " ++ e)
   | [] => none
 
 end Marwood.Driver.SimGood
